@@ -18,6 +18,7 @@ def build_library(it, P, shape, concrete_field_keys=False):
     mk = lambda cls, *a, **k: new_obj(it, P, "model", cls, *a, **k)
     lib = new_obj(it, P, "library", "Library")
     blocks, descr = [], []
+    ruler_obj = []
     for bi, sh in enumerate(shape):
         if isinstance(sh, tuple):
             n = sh[1]
@@ -40,6 +41,11 @@ def build_library(it, P, shape, concrete_field_keys=False):
         elif sh == "divider":
             # equal but distinct free-text blocks (same content, same line): equality must not steer the writer
             b = mk("ImplicitComment", comment=Hole("divider.comment"), start_line=0, raw=Hole("divider.raw"))
+            descr.append(("divider", bi))
+        elif sh == "ruler":
+            # the very same block object held several times (Library.add accepts that for blocks without a key)
+            b = ruler_obj[0] if ruler_obj else mk("ImplicitComment", comment=Hole("divider.comment"), start_line=0, raw=Hole("divider.raw"))
+            ruler_obj[:] = [b]
             descr.append(("divider", bi))
         elif sh == "failed":
             b = mk("ParsingFailedBlock", error=Unknown("err"), start_line=0, raw=Hole(f"b{bi}.raw"))
@@ -244,6 +250,7 @@ SHAPES = [
     ["string", "preamble", "comment", "implicit", "failed"],
     ["failed", ("entry", 2), "implicit", ("entry", 0), "preamble"],
     ["divider", ("entry", 1), "divider", "string", "divider"],
+    ["ruler", ("entry", 1), "ruler", "string", "ruler"],
 ]
 
 
@@ -393,34 +400,58 @@ def run(P: Program, rep: Report):
         check_templates(P, rep, "C06.R4", None, wide, trailings=(True, False), vcmodes=("sym",))
 
     rep.rule("C06.R6", "every configured warning comment is usable: a comment text with other braces than the `{n}` placeholder (`% failed {block}`, "
-                       "`% }`) does not make write() raise; it is emitted for the failed block")
+                       "`% }`) does not make write() raise; it is emitted for the failed block as `str.format(n=lines)` renders it (format specs, `{{`), "
+                       "for an integer column and for 'auto'; the format object is the same afterwards and a second write gives the same text")
 
-    def literal_comment(ctx, text):
+    RAW = "@x{oops\nsecond line"
+
+    def literal_comment(ctx, text, column):
         it = driver_interp(P, ctx, "writer", {}, None)
         mk = lambda cls, *a, **k: new_obj(it, P, "model", cls, *a, **k)
         lib = new_obj(it, P, "library", "Library")
-        call(it, lib, "add", AList([mk("ParsingFailedBlock", error=Unknown("err"), start_line=0, raw="@x{oops"),
-                                    mk("Entry", entry_type="a", key="k", fields=AList([]), start_line=1, raw="r")]))
+        call(it, lib, "add", AList([mk("ParsingFailedBlock", error=Unknown("err"), start_line=0, raw=RAW),
+                                    mk("Entry", entry_type="a", key="k", fields=AList([mk("Field", key="f", value="{v}", start_line=2)]), start_line=1, raw="r")]))
         fmt = new_obj(it, P, "writer", "BibtexFormat")
         try:
             it.set_attr(fmt, "parsing_failed_comment", text)
+            if column is not None:
+                it.set_attr(fmt, "value_column", column)
         except Raised as r:
-            return ("rejected", r.cls_name())       # a setter that refuses the text is fine: the format is then never in that state
+            return ("rejected", r.cls_name(), None)       # a setter that refuses the text is fine: the format is then never in that state
         try:
             out = call_func(it, wfn, lib, fmt)
-            return ("return", out)
+            out2 = call_func(it, wfn, lib, fmt)           # the same format object again: nothing was stored on it by the first write
+            return ("return", (out, out2), (it.get_attr(fmt, "parsing_failed_comment"), it.get_attr(fmt, "value_column")))
         except Raised as r:
-            return ("raise", r.cls_name())
+            return ("raise", r.cls_name(), None)
         except (Unsupported, LoopBound) as u:
             raise AnalysisError(f"C06.R6: analyser cannot follow write(): {u}")
-    for text in ("% failed {block}", "% closing } brace", "% open { brace", "% {0} positional", "% {n} lines", "% plain"):
-        for ctx, (kind, v) in explore(lambda c, t=text: literal_comment(c, t), 20):
-            ok = kind in ("return", "rejected")
-            if kind == "return" and isinstance(v, str):
-                ok = "@x{oops" in v
-            rep.check(ok, "C06.R6", f"warning-comment:{text!r}", wfn.loc,
-                      f"write() with parsing_failed_comment = {text!r} {'raises ' + str(v) if kind == 'raise' else 'returns ' + repr(v)[:80]}: the configured "
-                      f"comment must be written (or refused when it is set), not crash the writer")
+
+    def rendered(text):
+        """What `str.format` makes of the text given the number of lines, or the text itself if it is no such template."""
+        try:
+            return text.format(n=2)
+        except (KeyError, IndexError, ValueError):
+            return text
+    for text in ("% failed {block}", "% closing } brace", "% open { brace", "% {0} positional", "% {n} lines", "% plain", "% {n:>4} lines", "% {n!s} lines",
+                 "% {{n}} is literal, {n} is not", "% {n} and {n} again"):
+        for column in (None, 12, "auto"):
+            for ctx, (kind, v, after) in explore(lambda c, t=text, col=column: literal_comment(c, t, col), 20):
+                ok = kind in ("return", "rejected")
+                why = ""
+                if kind == "return":
+                    want = rendered(text) + "\n" + RAW + "\n"
+                    if not (isinstance(v[0], str) and v[0].startswith(want)):
+                        ok, why = False, f"returns {v[0]!r:.90}; the failed block must be written as {want!r}"
+                    elif v[1] != v[0]:
+                        ok, why = False, f"writes {v[1]!r:.90} the second time with the same format object (first: {v[0]!r:.60})"
+                    elif after != (text, column if column is not None else after[1]):
+                        ok, why = False, f"leaves the format object with parsing_failed_comment = {after[0]!r}, value_column = {after[1]!r}: it must be left unchanged"
+                elif kind == "raise":
+                    why = f"raises {v}"
+                rep.check(ok, "C06.R6", f"warning-comment:{text!r}:column={column}", wfn.loc,
+                          f"write() with parsing_failed_comment = {text!r}, value_column = {column!r} {why}: the configured comment must be written "
+                          f"as str.format(n=<lines>) renders it (as it is if it is no such template), the format object left as it was")
 
     rep.rule("C06.R5", "through write_string the contract holds for the library that is written: the 'auto' column is computed by write() from "
                        "the unparse stack's result, write_string does not look into the library it was given")
